@@ -244,8 +244,13 @@ class AbstractHasAxes(AbstractHasMetadata):
             if len(newdims) != len(self.dims):
                 raise ValueError("dimensions number mismatch")
             newdims = dict(zip(self.dims, newdims))
-        for old in newdims.keys():
-            self.axes[old].name = newdims[old]
+        # first look up the axes and check the resulting names (a new name may be another axis' current name)
+        axes = [self.axes[old] for old in newdims.keys()]
+        dims = [newdims.get(dim, dim) for dim in self.dims]
+        if len(set(dims)) != len(dims):
+            raise ValueError("dimension names must be distinct: {}".format(dims))
+        for ax, old in zip(axes, list(newdims.keys())):
+            ax.name = newdims[old]
 
     @property
     def axes(self):
